@@ -22,6 +22,19 @@ def corpus():
     return out
 
 
+def quick_subset(cs, step):
+    """every molecule with a stereogenic double bond, and every step-th of the rest"""
+    keep, k = [], 0
+    for name, smi in cs:
+        if "/" in smi or "\\" in smi:
+            keep.append((name, smi))
+        else:
+            if k % step == 0:
+                keep.append((name, smi))
+            k += 1
+    return keep
+
+
 def with_hs_and_maps(smi):
     """molecule with explicit hydrogens; atom map number = index + 1 on every atom."""
     from rdkit import Chem
